@@ -326,10 +326,6 @@ namespace {
       // initialiser): they hold whatever the previous resolution left. solveNonLinearSystem must reset them.
       this->iter = static_cast<unsigned short>(this->iterMax + 3u);
       this->is_delta_zeros_defined = true;
-#if C08_SOLVER == 5
-      this->levmar_first = false;
-      this->levmar_mu = 123.0;
-#endif
       bool r = false;
       try {
         r = this->solveNonLinearSystem();
